@@ -21,7 +21,8 @@ vars == <<pi, SS, clks, GG, lst, last, hist>>
 View == <<pi, SS, clks, GG, lst>>
 
 II == 1..N
-Targets == 1..(N + K)
+Det == N + K + 1          \* a callable that, on every event it receives, detaches the listener bound right after it
+Targets == 1..(N + K + 1)
 ch(i) == Charts[Pairs[pi][i]]
 OptS == [ignore |-> FALSE, metas |-> TRUE]
 
@@ -43,13 +44,22 @@ Obs(op, i, ev, par, dl, orc, clk0, s0, s1, A, deliv, binds) ==
 SentInternal(steps) ==
   SelectSeq(FlattenSeq([k \in DOMAIN steps |-> steps[k].sent]), LAMBDA e : e.k = "i")
 
-(* C15, declaratively: every sent internal event, to every listener bound at that moment, *)
-(* event-major, listeners in binding order                                              *)
-ExpectedDeliv(steps, listeners) ==
-  FlattenSeq([j \in DOMAIN SentInternal(steps) |->
-     [t \in DOMAIN listeners |->
-        [to |-> listeners[t], ev |-> SentInternal(steps)[j].ev, par |-> SentInternal(steps)[j].par,
-         dl |-> SentInternal(steps)[j].dl]]])
+(* C15: every sent internal event, in sending order, to every listener bound AT THAT MOMENT, in   *)
+(* binding order.  "At that moment" matters when a listener detaches another one while it is being *)
+(* notified (the callable Det): nothing is delivered after detach, not even the current event.     *)
+RECURSIVE WalkListeners(_, _, _, _)
+WalkListeners(L, k, e, acc) ==
+  IF k > Len(L) THEN [L |-> L, deliv |-> acc]
+  ELSE LET d == [to |-> L[k], ev |-> e.ev, par |-> e.par, dl |-> e.dl]
+           L2 == IF L[k] = Det /\ k < Len(L) THEN RemoveAt(L, k + 1) ELSE L
+       IN WalkListeners(L2, k + 1, e, Append(acc, d))
+
+DeliverAll(steps, listeners) ==
+  FoldLeft(LAMBDA acc, e : LET r == WalkListeners(acc.L, 1, e, acc.deliv) IN [L |-> r.L, deliv |-> r.deliv],
+           [L |-> listeners, deliv |-> <<>>], SentInternal(steps))
+
+ExpectedDeliv(steps, listeners) == DeliverAll(steps, listeners).deliv
+ListenersAfter(steps, listeners) == DeliverAll(steps, listeners).L
 
 C15_delivered(o) == o.op = "exec" => o.deliv = ExpectedDeliv(o.steps, o.binds)
 C15_only_exec(o) == o.op # "exec" => o.deliv = <<>>
@@ -117,7 +127,8 @@ Exec(i, gv) ==
      /\ GG' = gg2
      /\ last' = o
      /\ hist' = Append(hist, H("exec", i, 0, 0, 0, gv))
-     /\ UNCHANGED <<pi, lst>>
+     /\ lst' = [lst EXCEPT ![i] = ListenersAfter(IF A.exc = "" THEN A.steps ELSE <<>>, lst[i])]
+     /\ UNCHANGED pi
 
 OracleIdx(i) == {k \in DOMAIN ch(i).trans : ch(i).trans[k].gk = "oracle"}
 GVs(i) == {[k \in DOMAIN ch(i).trans |-> IF k \in OracleIdx(i) THEN f[k] ELSE FALSE] : f \in [OracleIdx(i) -> BOOLEAN]}
